@@ -15,7 +15,9 @@ PROP = "C09"
 LEAN_MODULES = ["Props.C09", "Props.C09F", "Props.C09D"]
 RULE = (
     "case = (binary layout of 2/4/8-byte integer and float fields, ASCII literal and date fields, any order, gaps; "
-    "value list; optionally earlier records written and read through the SAME Line object first). Line(fields, storage='BINARY').write(values) and .read(bytes) on the real code are compared with the "
+    "value list; optionally earlier records written and read through the SAME Line object first; optionally the Line reaches the layout not through its constructor but through the public setters "
+    "-- constructed with an earlier layout (wider, narrower, empty, shifted, unrelated; used for 0-2 records) and given this one by line.fields = [...], constructed textual and switched by line.storage = 'BINARY', "
+    "both, or its field objects moved to their positions after construction -- a third of the mixed layouts, an eighth of the other random cases and a fixed grid: the expectation is the model's for the layout the line HAS when it writes). Line(fields, storage='BINARY').write(values) and .read(bytes) on the real code are compared with the "
     "model's cycle and judged by Spec.C09.holds (length = furthest field end, blank gaps, each field's bytes inside "
     "its span equal the reference encoding, read-back = integers exactly / floats rounded to the IEEE width / "
     "literals stripped / dates truncated to the format / missing numbers 0 and missing text blank). Every quick run "
@@ -36,6 +38,71 @@ import sys
 assert sys.byteorder == "little"
 
 
+def build_line(Line, fs, case):
+    """The binary Line holding the layout `fs`, reached the way case['layout_via'] says:
+    constructed with it (no entry), or constructed with ANOTHER layout / storage first, possibly
+    used for a record, and then given this layout through the public setters. The property speaks
+    about the layout the line HAS when it writes, so the expectation never looks at this history."""
+    via = case.get("layout_via")
+    if not via:
+        return Line(fs, storage="BINARY")
+    nps = case.get("np_scalars", False)
+    how = via["how"]
+
+    def use(ln):
+        for pv in via.get("records", []):
+            ln.read(ln.write([codec.dec_val(v, nps) for v in pv]))
+
+    if how == "fields_setter":
+        # Line(earlier layout), records through it, then line.fields = [this layout]
+        ln = Line([codec.mk_field(fd) for fd in via["fields"]], storage="BINARY")
+        use(ln)
+        ln.fields = fs
+        return ln
+    if how == "storage_setter":
+        # a textual Line of this layout switched to binary storage
+        ln = Line(fs, storage=via.get("storage", ""))
+        ln.storage = "BINARY"
+        return ln
+    if how == "both_setters":
+        # a textual Line of the earlier layout switched to binary storage, used, then given this layout
+        ln = Line([codec.mk_field(fd) for fd in via["fields"]], storage=via.get("storage", ""))
+        ln.storage = "BINARY"
+        use(ln)
+        ln.fields = fs
+        return ln
+    if how == "moved":
+        # the SAME field objects sat at the earlier positions when the Line was made and were moved
+        # afterwards (starting_position / ending_position are settable)
+        for f, efd in zip(fs, via["fields"]):
+            f.starting_position, f.ending_position = efd["start"], efd["start"] + efd["size"]
+        ln = Line(fs, storage="BINARY")
+        use(ln)
+        for f, fd in zip(fs, case["fields"]):
+            f.starting_position, f.ending_position = fd["start"], fd["start"] + fd["size"]
+        return ln
+    raise ValueError(how)
+
+
+def via_text(case):
+    via = case.get("layout_via")
+    if not via:
+        return ""
+    span = lambda fds: "[" + ", ".join(f"{fd['k']}{fd['size']}@{fd['start']}" for fd in fds) + "]"
+    nrec = len(via.get("records", []))
+    used = f", {nrec} record(s) written and read through it" if nrec else ""
+    how = via["how"]
+    if how == "fields_setter":
+        s = f"the Line was constructed with the layout {span(via['fields'])}{used}, then given this layout {span(case['fields'])} by line.fields = [...]"
+    elif how == "storage_setter":
+        s = f"the Line was constructed with storage={via.get('storage', '')!r} and switched by line.storage = 'BINARY'"
+    elif how == "both_setters":
+        s = f"the Line was constructed with storage={via.get('storage', '')!r} and the layout {span(via['fields'])}, switched by line.storage = 'BINARY'{used}, then given this layout {span(case['fields'])} by line.fields = [...]"
+    else:
+        s = f"the field objects sat at {span(via['fields'])} when the Line was constructed{used} and were moved to {span(case['fields'])} afterwards"
+    return " -- " + s + "; the record must be the one of the layout the line has when it writes"
+
+
 def run_impl(case):
     from cfinterface.components.line import Line
 
@@ -43,7 +110,7 @@ def run_impl(case):
         with warnings.catch_warnings():
             warnings.simplefilter("ignore")
             fs = [codec.mk_field(fd) for fd in case["fields"]]
-            ln = Line(fs, storage="BINARY")
+            ln = build_line(Line, fs, case)
             # records written / read earlier through the SAME line object (a file writer reuses one Line)
             for pv in case.get("prior", []):
                 pw = ln.write([codec.dec_val(v, case.get("np_scalars", False)) for v in pv])
@@ -96,13 +163,13 @@ def judge(case, obs, resp):
     if not resp["model_holds"]:
         return {"status": "error", "why": f"the MODEL's cycle violates Spec.C09.holds: {show(resp.get('model'))}"}
     if "exc" in obs:
-        return {"status": "oracle", "why": f"binary write/read raised {obs['exc']}: {obs.get('msg')}"}
+        return {"status": "oracle", "why": f"binary write/read raised {obs['exc']}: {obs.get('msg')}" + via_text(case)}
     if not resp["holds"]:
-        return {"status": "oracle", "why": f"got {show(obs)}; required {show(resp.get('model'))}"}
+        return {"status": "oracle", "why": f"got {show(obs)}; required {show(resp.get('model'))}" + via_text(case)}
     if obs.get("rewrite_bad"):
-        return {"status": "oracle", "why": obs["rewrite_bad"]}
+        return {"status": "oracle", "why": obs["rewrite_bad"] + via_text(case)}
     if not resp["agree"]:
-        return {"status": "corr", "why": f"model {show(resp.get('model'))} vs implementation {show(obs)}"}
+        return {"status": "corr", "why": f"model {show(resp.get('model'))} vs implementation {show(obs)}" + via_text(case)}
     return {"status": "ok", "why": ""}
 
 
@@ -128,6 +195,8 @@ def features(case, obs):
         f.append(f"kind={fd['k']}{fd['size'] if fd['k'] in ('int', 'flt') else ''}")
     if "fam" in case:
         f.append("family=" + case["fam"])
+    via = case.get("layout_via")
+    f.append("layout_via=" + (via["how"] + ("+records" if via.get("records") else "") if via else "constructor"))
     return f
 
 
@@ -292,6 +361,100 @@ def random_layout(rng):
     return case
 
 
+def benign_record(rng, fields):
+    """a record every field of the layout accepts (used for the records of an EARLIER layout)"""
+    pv = []
+    for fd in fields:
+        if fd["k"] == "int":
+            pv.append({"i": rng.randrange(1, 100)})
+        elif fd["k"] == "flt":
+            pv.append(codec.enc_val(rng.choice([0.1, 1.5, -2.25])))
+        elif fd["k"] == "lit":
+            pv.append({"s": codec.enc_str("q" * min(rng.randrange(1, 4), fd["size"]))})
+        else:
+            pv.append(codec.enc_val(datetime(2001, 2, 3, 4, 5)))
+    return pv
+
+
+def some_field(rng, pos):
+    k = rng.choice(["int", "flt", "lit", "date"])
+    if k == "int":
+        return codec.fd_int(rng.choice([2, 4, 8]), pos)
+    if k == "flt":
+        return codec.fd_flt(rng.choice([2, 4, 8]), pos)
+    if k == "lit":
+        return codec.fd_lit(rng.randrange(1, 13), pos)
+    return codec.fd_date(10, pos, ["%Y/%m/%d"])
+
+
+def with_layout_history(rng, case):
+    """the same case, its Line reaching the layout through the setters instead of the constructor:
+    the earlier layout is wider / narrower / empty / unrelated, used for 0-2 records or not at all"""
+    fields = case["fields"]
+    end = max((fd["start"] + fd["size"] for fd in fields), default=0)
+    how = rng.choice(["fields_setter", "fields_setter", "fields_setter", "both_setters", "storage_setter", "moved"])
+    via = {"how": how}
+    if how in ("storage_setter", "both_setters"):
+        via["storage"] = rng.choice(["", "TEXT"])
+    if how in ("fields_setter", "both_setters"):
+        rel = rng.choice(["wider", "wider", "narrower", "narrower", "empty", "unrelated", "shifted"])
+        if rel == "wider":
+            # this layout and further fields beyond its end
+            ef, pos = [dict(fd) for fd in fields], end
+            for _ in range(rng.randrange(1, 4)):
+                pos += rng.choice([0, 0, 1, 5])
+                fd = some_field(rng, pos)
+                ef.append(fd)
+                pos += fd["size"]
+        elif rel == "narrower":
+            keep = sorted(rng.sample(range(len(fields)), rng.randrange(0, len(fields)))) if len(fields) > 1 else []
+            ef = [dict(fields[i]) for i in keep] or [codec.fd_lit(1, 0)]
+        elif rel == "empty":
+            ef = []
+        elif rel == "shifted":
+            d = rng.choice([1, 2, 8, 40])
+            ef = [dict(fd, start=fd["start"] + d) for fd in fields]
+        else:
+            ef = random_layout(rng)["fields"]
+        via["fields"] = ef
+    elif how == "moved":
+        lo = min(fd["start"] for fd in fields)
+        mv = rng.choice(["right", "right", "spread"] + (["left"] if lo > 0 else []))
+        d = rng.choice([1, 2, 8, 40])
+        via["fields"] = [dict(fd, start=fd["start"] + d if mv == "right" else fd["start"] * 2 + d if mv == "spread" else fd["start"] - lo) for fd in fields]
+    if "fields" in via and via["fields"]:
+        recs = [benign_record(rng, via["fields"]) for _ in range(rng.choice([0, 1, 1, 2]))]
+        if recs:
+            via["records"] = recs
+    return {**case, "layout_via": via}
+
+
+def layout_history_fixed():
+    """one small record per way of reaching the layout x relation of the earlier layout to it (deterministic)"""
+    fields = [codec.fd_int(2, 1), codec.fd_flt(4, 3), codec.fd_lit(3, 8)]
+    values = [{"i": -2}, codec.enc_val(1.5), {"s": codec.enc_str("ab")}]
+    wide = fields + [codec.fd_int(8, 12), codec.fd_lit(12, 20)]
+    rng = random.Random(9)
+    for ef in (wide, fields[:1], [], [codec.fd_flt(8, 0), codec.fd_date(10, 30, ["%Y/%m/%d"])], [dict(fd, start=fd["start"] + 8) for fd in fields]):
+        for how in ("fields_setter", "both_setters"):
+            for nrec in (0, 1):
+                via = {"how": how, "fields": ef}
+                if how == "both_setters":
+                    via["storage"] = "TEXT"
+                if nrec and ef:
+                    via["records"] = [benign_record(rng, ef)]
+                yield {"fields": fields, "values": values, "fam": "mixed_layout_history", "layout_via": via}
+                yield {"fields": fields, "values": [None, None, None], "fam": "mixed_layout_history", "layout_via": via}
+    for st in ("", "TEXT"):
+        yield {"fields": fields, "values": values, "fam": "mixed_layout_history", "layout_via": {"how": "storage_setter", "storage": st}}
+    for ef in ([dict(fd, start=fd["start"] + 8) for fd in fields], [dict(fd, start=fd["start"] - 1) for fd in fields]):
+        for nrec in (0, 1):
+            via = {"how": "moved", "fields": ef}
+            if nrec:
+                via["records"] = [benign_record(rng, ef)]
+            yield {"fields": fields, "values": values, "fam": "mixed_layout_history", "layout_via": via}
+
+
 def literal_lengths():
     for size in range(1, 9):
         for w in range(0, size + 1):
@@ -332,27 +495,34 @@ def cases_of(chunk):
         for size in (2, 4, 8):
             sp = float_specials(size)
             yield {"fields": packed_fields("flt", size, len(sp)), "values": [codec.enc_val(v) for v in sp], "fam": "float_specials"}
+        yield from layout_history_fixed()
     elif k == "int16":
         yield from all_int16(chunk["part"], chunk["of"])
     elif k == "float16":
         yield from all_float16(chunk["part"], chunk["of"])
     elif k == "random":
         rng = random.Random(chunk["seed"])
+        # a separate stream decides how the Line reaches its layout, so the cases themselves stay as they were:
+        # a third of the mixed layouts and an eighth of the others get their layout through the setters
+        hrng = random.Random(chunk["seed"] * 7919 + 17)
         for i in range(chunk["n"]):
             r = i % 4
             if r == 0:
-                yield random_layout(rng)
+                c = random_layout(rng)
             elif r == 1:
-                yield random_float_case(rng, rng.choice([2, 4, 8]), rng.randrange(1, 12))
+                c = random_float_case(rng, rng.choice([2, 4, 8]), rng.randrange(1, 12))
             elif r == 2:
                 size = rng.choice([4, 8])
                 h = 2 ** (8 * size - 1)
                 n = rng.randrange(1, 12)
-                yield {"fields": packed_fields("int", size, n, rng.randrange(0, 3), rng.choice([0, 1])), "values": [{"i": rng.randrange(-h, h)} for _ in range(n)], "fam": f"int{8*size}_random"}
+                c = {"fields": packed_fields("int", size, n, rng.randrange(0, 3), rng.choice([0, 1])), "values": [{"i": rng.randrange(-h, h)} for _ in range(n)], "fam": f"int{8*size}_random"}
             else:
                 size = rng.choice([2, 4])
                 hv = halfway_values(rng, size, 4)
-                yield {"fields": packed_fields("flt", size, len(hv)), "values": [codec.enc_val(v) for v in hv], "fam": f"float{8*size}_halfway"}
+                c = {"fields": packed_fields("flt", size, len(hv)), "values": [codec.enc_val(v) for v in hv], "fam": f"float{8*size}_halfway"}
+            if c["fields"] and hrng.random() < (1 / 3 if r == 0 else 1 / 8):
+                c = with_layout_history(hrng, c)
+            yield c
 
 
 def shrinks(case):
@@ -361,6 +531,23 @@ def shrinks(case):
         yield {k: v for k, v in case.items() if k != "prior"}
         if len(case["prior"]) > 1:
             yield {**case, "prior": case["prior"][:1]}
+    via = case.get("layout_via")
+    if via:
+        yield {k: v for k, v in case.items() if k != "layout_via"}
+        if via.get("records"):
+            yield {**case, "layout_via": {k: v for k, v in via.items() if k != "records"}}
+        if via["how"] == "both_setters":
+            yield {**case, "layout_via": {k: v for k, v in via.items() if k != "storage"} | {"how": "fields_setter"}}
+        if via["how"] in ("fields_setter", "both_setters") and len(via["fields"]) > 1:
+            for i in range(len(via["fields"])):
+                yield {**case, "layout_via": {**via, "fields": [via["fields"][i]], **({"records": [[pv[i]] for pv in via["records"]]} if via.get("records") else {})}}
+    if via and via["how"] == "moved":
+        # the earlier positions belong to the same field objects: shrink both together
+        if n > 1:
+            for i in range(n):
+                yield {**case, "fields": [case["fields"][i]], "values": [case["values"][i]], **({"prior": [[pv[i]] for pv in case["prior"]]} if case.get("prior") else {}),
+                       "layout_via": {**via, "fields": [via["fields"][i]], **({"records": [[pv[i]] for pv in via["records"]]} if via.get("records") else {})}}
+        return
     if n > 1:
         for i in range(n):
             yield {**case, "fields": [case["fields"][i]], "values": [case["values"][i]], **({"prior": [[pv[i]] for pv in case["prior"]]} if case.get("prior") else {})}
